@@ -93,6 +93,8 @@ def decode(v):
         return [decode(x) for x in v[1]]
     if k == 'obj':
         return object()
+    if k == 'special_float':
+        return float(v[1])
     if k == 'pre':
         return dsl.build(v[1])
     if k == 'cexpr':
@@ -112,6 +114,8 @@ def show(v):
         return '[' + ', '.join(show(x) for x in v[1]) + ']'
     if k == 'obj':
         return 'object()'
+    if k == 'special_float':
+        return f'float({v[1]!r})'
     if k == 'pre':
         return dsl.render(v[1])
     if k == 'cexpr':
@@ -396,7 +400,8 @@ def check_case(case, ctx):
 # -- complete grid: every public callable x every parameter x every wrong-kind value, the other arguments valid ------------
 GRID_VALUES = [['none'], ['int', -1], ['int', 0], ['int', 100], ['int', 10 ** 6], ['float', 1.5], ['float', 2.0], ['bool', True], ['bool', False],
                ['str', ''], ['str', 'ab'], ['str', '1a'], ['str', 'a b'], ['str', '\\'], ['bytes', 'a'], ['list', []], ['list', [['int', 1]]],
-               ['list', [['str', 'a'], ['none']]], ['obj'], ['pre', ['lit', 'ab', False]], ['pre', ['empty', 0]], ['cexpr', ['t', 'Backslash']]]
+               ['list', [['str', 'a'], ['none']]], ['list', [['str', 'a'], ['pre', ['lit', 'b', False]]]], ['list', [['str', 'a'], ['int', 1]]],
+               ['special_float', 'inf'], ['special_float', '-inf'], ['special_float', 'nan'], ['obj'], ['pre', ['lit', 'ab', False]], ['pre', ['empty', 0]], ['cexpr', ['t', 'Backslash']]]
 
 
 def valid_default(label, pname):
